@@ -934,37 +934,89 @@ func runEvalMisc(c *Ctx, r *Reporter) {
 		}
 		r.Check(okDeep, fd.QName()+"#any-content", p.Rel(fd.Decl.Pos()), "the content of an any is deep-copied", "deepCopy does not recurse into the content of an any: arrays/maps held in an any stay shared between the repetitions of `arr * n`")
 	}
-	// mapRange.next: return true only after a presence test
+	// mapRange.next: return true only after a presence test (directly, through a helper that reports the presence, or
+	// through a helper — nextKey — whose own boolean result is true only after the test)
 	if fd := FindFunc(pkg, "(*mapRange).next"); fd != nil {
 		sf := p.SSAFunc(fd.Obj)
-		okPres := true
-		found := false
-		for _, ret := range returnsOf(sf) {
-			for _, v := range resultValues(ret, 0) {
-				k, ok := v.(*ssa.Const)
-				if !ok || k.Value == nil || k.Value.ExactString() != "true" {
-					continue
-				}
-				found = true
-				guarded := false
-				for d := ret.Block(); d != nil; d = d.Idom() {
-					idom := d.Idom()
-					if idom == nil || len(idom.Instrs) == 0 {
+		var trueOnlyBehind func(fn *ssa.Function, idx int, depth int) (found, ok bool)
+		trueOnlyBehind = func(fn *ssa.Function, idx int, depth int) (bool, bool) {
+			found, okAll := false, true
+			if depth > 2 {
+				return false, false
+			}
+			for _, ret := range returnsOf(fn) {
+				for _, v := range resultValues(ret, idx) {
+					if k, ok := v.(*ssa.Const); ok {
+						if k.Value == nil || k.Value.ExactString() != "true" {
+							continue
+						}
+					} else if ex, ok := v.(*ssa.Extract); ok {
+						// handing on a helper's boolean
+						if call, ok := ex.Tuple.(*ssa.Call); ok && call.Call.StaticCallee() != nil && call.Call.StaticCallee().Pkg == fn.Pkg {
+							f2, ok2 := trueOnlyBehind(call.Call.StaticCallee(), ex.Index, depth+1)
+							found = found || f2
+							if !ok2 {
+								okAll = false
+							}
+							continue
+						}
+						okAll = false
+						continue
+					} else {
+						if present, isP := presenceCond(v, pkg.Types, 0); isP && present {
+							found = true
+							continue
+						}
+						okAll = false
 						continue
 					}
-					if ifi, ok := idom.Instrs[len(idom.Instrs)-1].(*ssa.If); ok {
-						if ex, ok := ifi.Cond.(*ssa.Extract); ok && ex.Index == 1 {
-							if lk, ok := ex.Tuple.(*ssa.Lookup); ok && loadsField(lk.X, "Pairs") && edgeDominates(idom, 0, ret.Block()) {
+					found = true
+					guarded := false
+					for d := ret.Block(); d != nil; d = d.Idom() {
+						idom := d.Idom()
+						if idom == nil || len(idom.Instrs) == 0 {
+							continue
+						}
+						ifi, ok := idom.Instrs[len(idom.Instrs)-1].(*ssa.If)
+						if !ok {
+							continue
+						}
+						if present, isP := presenceCond(ifi.Cond, pkg.Types, 0); isP {
+							e := 0
+							if !present {
+								e = 1
+							}
+							if edgeDominates(idom, e, ret.Block()) {
 								guarded = true
 							}
 						}
+						// the true edge of a helper's boolean that is itself true only behind the test
+						cond, neg := ifi.Cond, false
+						if u, ok := cond.(*ssa.UnOp); ok && u.Op == token.NOT {
+							cond, neg = u.X, true
+						}
+						if ex, ok := cond.(*ssa.Extract); ok {
+							if call, ok := ex.Tuple.(*ssa.Call); ok && call.Call.StaticCallee() != nil && call.Call.StaticCallee().Pkg == fn.Pkg {
+								if f2, ok2 := trueOnlyBehind(call.Call.StaticCallee(), ex.Index, depth+1); f2 && ok2 {
+									e := 0
+									if neg {
+										e = 1
+									}
+									if edgeDominates(idom, e, ret.Block()) {
+										guarded = true
+									}
+								}
+							}
+						}
+					}
+					if !guarded {
+						okAll = false
 					}
 				}
-				if !guarded {
-					okPres = false
-				}
 			}
+			return found, okAll
 		}
+		found, okPres := trueOnlyBehind(sf, 0, 0)
 		r.Check(found && okPres, fd.QName()+"#present", p.Rel(fd.Decl.Pos()), "a key is handed to the loop body only if it is still in the map", "(*mapRange).next can return true without having tested that the key is still present: a key deleted during the loop is visited and m[k] panics")
 	}
 	// Stopped is written only by the platform
